@@ -85,6 +85,7 @@ def run(ctx, drv):
         if k % 10 == 7 and n >= 2:
             # two solutions inside ONE box whose sides differ by orders of magnitude (per-objective epsilons such as 0.125 and 8):
             # which of them is nearer the box's ideal corner is decided by the distances in objective units
+            lattice = False                       # (these values are not on the k/8 lattice: judged with the off-lattice margins)
             eps = [rng.choice([0.125, 8.0, 1e-3, 100.0, 0.5]) for _ in range(n)]
             ks_ = [rng.randrange(-3, 4) for _ in range(n)]
 
